@@ -1782,7 +1782,7 @@ Lemma equiv_do_media h c sid s to mk stream media :
 Proof.
   intros Hs. unfold do_media. destruct to as [i|u| |]; try apply equiv_refl.
   destruct (N.eqb mk 0).
-  - destruct (negb (offer_allowed (s_perms s) stream media)); [apply equiv_refl|].
+  - destruct (negb (offer_allowed (s_perms s) stream _)); [apply equiv_refl|].
     destruct (aget (s_pubs s) stream); [|apply equiv_start_create].
     eapply equiv_trans; [|apply equiv_send_session; reflexivity]. apply equiv_put with s; [exact Hs|reflexivity].
   - destruct (N.eqb mk 1).
